@@ -49,7 +49,10 @@ const F_CAT: u32 = 12;
 const F_ATTRS: u32 = 13;
 /// model-side fast "field" of the JSON path `attrs.<JKEYS[i]>`
 const F_JSON_FAST0: u32 = 100;
-const JKEYS: [&str; 5] = ["k", "n", "t", "u", "x"];
+const JKEYS: [&str; 6] = ["k", "n", "t", "u", "x", "m"];
+/// keys the query generators draw from (`m`, mixed supplied types, only occurs in the column-type stage)
+const N_QUERY_KEYS: usize = 5;
+const JKEY_MIXED: usize = 5;
 const FIELD_NAMES: [&str; 14] = ["id", "body", "title", "tag", "num", "inum", "score", "when", "ip", "flag", "blob", "ifast", "cat", "attrs"];
 
 const K_F4: &str = "C03:msm-ignored-single-should-clause";
@@ -633,8 +636,8 @@ impl Q {
             Q::JExists(k) => match k {
                 Some(k) => out.extend(["E".into(), (F_JSON_FAST0 + *k as u32).to_string()]),
                 None => {
-                    out.extend(["D".into(), JKEYS.len().to_string()]);
-                    for k in 0..JKEYS.len() {
+                    out.extend(["D".into(), N_QUERY_KEYS.to_string()]);
+                    for k in 0..N_QUERY_KEYS {
                         out.extend(["E".into(), (F_JSON_FAST0 + k as u32).to_string()]);
                     }
                 }
@@ -1509,7 +1512,7 @@ fn gen_leaf(rng: &mut Rng, pools: &Pools) -> Q {
                     let n = 2 + rng.usize_below(2);
                     Q::JPhrase { terms: (0..n).map(|i| (i, rng.pick(&pools.words).clone())).collect(), slop: if rng.chance(2, 3) { 0 } else { 1 + rng.below(2) as u32 } }
                 }
-                3 => Q::JExists(if rng.chance(1, 3) { None } else { Some(rng.usize_below(JKEYS.len())) }),
+                3 => Q::JExists(if rng.chance(1, 3) { None } else { Some(rng.usize_below(N_QUERY_KEYS)) }),
                 _ => {
                     let mut b = |rng: &mut Rng| match rng.below(4) { 0 => None, _ => Some((rng.chance(1, 2), if rng.chance(1, 3) { boundary_i64(rng) } else { rng.below(12) as i64 - 6 })) };
                     let (lo, hi) = (b(rng), b(rng));
@@ -2148,6 +2151,98 @@ fn check_json_ranges(ctx: &mut Ctx, n_corpora: u64, n_queries: usize) {
     }
 }
 
+/// column type of a JSON path that receives i64- and u64-supplied values (f64 when negative values meet
+/// values ≥ i64::MAX), written and merged: Lean `writtenCol` / `mergedCol` vs the real column
+fn check_json_mixed_column_types(ctx: &mut Ctx, n_corpora: u64) {
+    let ivals: [i64; 7] = [i64::MIN, -5, -1, 0, 3, 4096, i64::MAX];
+    let uvals: [u64; 7] = [0, 7, i64::MAX as u64 - 1, i64::MAX as u64, i64::MAX as u64 + 1, u64::MAX - 1, u64::MAX];
+    for _ in 0..n_corpora {
+        let mut rng = ctx.rng.fork();
+        let n = 4 + rng.usize_below(20);
+        let (neg, big) = (rng.below(4), rng.below(4));
+        let docs: Vec<DocSpec> = (0..n).map(|i| {
+            let mut attrs = vec![];
+            if rng.chance(4, 5) {
+                let v = if rng.chance(1, 2) {
+                    JVal::Int(if rng.below(6) < neg { *rng.pick(&ivals[..3]) } else { *rng.pick(&ivals[3..]) })
+                } else {
+                    JVal::UInt(if rng.below(6) < big { *rng.pick(&uvals[3..]) } else { *rng.pick(&uvals[..3]) })
+                };
+                attrs.push((JKEY_MIXED, v));
+            }
+            DocSpec { id: 1000 + i as u64, attrs: Some(attrs), ..Default::default() }
+        }).collect();
+        let nseg = 1 + rng.usize_below(3);
+        let mut chunks = vec![];
+        let mut left = n;
+        for sidx in 0..nseg { let c = if sidx + 1 == nseg { left } else { 1 + rng.usize_below(left.max(2) - 1) }; chunks.push(c.min(left)); left -= c.min(left); }
+        let deletes = if rng.chance(1, 3) { vec![(chunks.len() - 1, 1000 + rng.below(n as u64))] } else { vec![] };
+        let merge = rng.chance(1, 2);
+        let spec = CorpusSpec { docs, chunks, cut: 0, deletes, merge };
+        check_json_mixed_case(ctx, &spec);
+    }
+}
+
+fn check_json_mixed_case(ctx: &mut Ctx, spec: &CorpusSpec) {
+    {
+        let case = json!({"kind": "json-mixed-column", "corpus": spec});
+        let b = match build(spec) { Ok(b) => b, Err(e) => { ctx.report.violation("oracle", "C03:index-build-failed", e, case); return; } };
+        let supplied: BTreeMap<u64, (char, i128)> = spec.docs.iter().filter_map(|d| d.attrs.as_ref().and_then(|a| a.iter().find(|(k, _)| *k == JKEY_MIXED)).and_then(|(_, v)| match v {
+            JVal::Int(i) => Some((d.id, ('i', *i as i128))), JVal::UInt(u) => Some((d.id, ('u', *u as i128))), _ => None })).collect();
+        let written = |ctx: &mut Ctx, ids: &mut dyn Iterator<Item = u64>| -> Option<(String, i128, i128)> {
+            let vs: Vec<(char, i128)> = ids.filter_map(|id| supplied.get(&id).copied()).collect();
+            if vs.is_empty() { return None; }
+            let t = ctx.model.ask(&format!("C03 jwritten {}", vs.iter().map(|(c, v)| format!("{c}:{v}")).collect::<Vec<_>>().join(",")));
+            Some((t, vs.iter().map(|x| x.1).min().unwrap(), vs.iter().map(|x| x.1).max().unwrap()))
+        };
+        let merged = spec.merge && surviving_chunks(spec) >= 2;
+        for (si, r) in b.searcher.segment_readers().iter().enumerate() {
+            let pred: Option<String> = if merged {
+                // the merger types the column from the (type, min, max) of every surviving source column
+                let deleted: BTreeSet<u64> = spec.deletes.iter().map(|x| x.1).collect();
+                let mut srcs = vec![];
+                let mut pos = 0usize;
+                for n in &spec.chunks {
+                    let docs = &spec.docs[pos..(pos + n).min(spec.docs.len())];
+                    pos = (pos + n).min(spec.docs.len());
+                    if docs.is_empty() || docs.iter().all(|d| deleted.contains(&d.id)) { continue; }
+                    if let Some((t, mn, mx)) = written(ctx, &mut docs.iter().map(|d| d.id)) { srcs.push(format!("{t}:{mn}:{mx}")); }
+                }
+                if srcs.is_empty() { None } else { Some(ctx.model.ask(&format!("C03 jmerge {}", srcs.join(",")))) }
+            } else {
+                written(ctx, &mut b.segs[si].iter().map(|(d, _)| d.id)).map(|x| x.0)
+            };
+            let real = real_col(r, JKEY_MIXED);
+            ctx.report.count(&format!("json-mixed-column-type:{}{}", real.clone().ok().flatten().unwrap_or("none"), if merged { ":merged" } else { "" }));
+            ctx.report.case(&format!("jmix|{}|{:?}|{}", merged, pred, b.segs[si].len()), true);
+            if real != Ok(pred.as_deref().map(|x| match x { "i" => "i", "u" => "u", _ => "f" })) {
+                ctx.report.violation("model", "C03:json-column-type-model-vs-implementation", format!("segment {si} attrs.m: real column type {:?}, model {:?}", real, pred), case.clone());
+            }
+            // the merged type is the write-time type of all surviving source values together (C03_json_merged_column_type_mixed)
+            if merged {
+                let all = written(ctx, &mut json_alive_source_ids(spec).into_iter()).map(|x| x.0);
+                if all != pred {
+                    ctx.report.violation("model", "C03:json-merged-column-type-differs-from-union", format!("merged {:?}, write-time type of the union {:?}", pred, all), case.clone());
+                }
+            }
+        }
+    }
+}
+
+/// ids of the documents of every source segment alive at merge time (deleted documents of a surviving chunk included)
+fn json_alive_source_ids(spec: &CorpusSpec) -> Vec<u64> {
+    let deleted: BTreeSet<u64> = spec.deletes.iter().map(|x| x.1).collect();
+    let mut out = vec![];
+    let mut pos = 0usize;
+    for n in &spec.chunks {
+        let docs = &spec.docs[pos..(pos + n).min(spec.docs.len())];
+        pos = (pos + n).min(spec.docs.len());
+        if docs.is_empty() || docs.iter().all(|d| deleted.contains(&d.id)) { continue; }
+        out.extend(docs.iter().map(|d| d.id));
+    }
+    out
+}
+
 // ---------------------------------------------------------------------------------------------
 // fast-field range: which scorer search_on_u64_ff builds per segment (min/max pruning)
 // ---------------------------------------------------------------------------------------------
@@ -2243,6 +2338,10 @@ pub fn replay(ctx: &mut Ctx, case: &serde_json::Value) {
                 _ => ctx.report.notes.push("replay: bad json-range case".into()),
             }
         }
+        "json-mixed-column" => match serde_json::from_value::<CorpusSpec>(case["corpus"].clone()) {
+            Ok(spec) => check_json_mixed_case(ctx, &spec),
+            Err(_) => ctx.report.notes.push("replay: bad json-mixed-column case".into()),
+        },
         "enc" => check_encodings(ctx),
         k => ctx.report.notes.push(format!("replay kind {k:?} re-runs the generated stream")),
     }
@@ -2263,6 +2362,7 @@ pub fn run(ctx: &mut Ctx) {
         "range over a numeric JSON path (i64 / u64 bound term × i64 / u64 column, incl / excl / unbounded): DocSetCollector, TopDocs, Count = numeric meaning = Lean JsonRange.implMatch per segment; column type = colOf".into(),
         "phrase-prefix queries with position gaps / shifted offsets: all paths = Lean semPhrasePrefix (C03_phrase_prefix_iff)".into(),
         "fast-field range: the scorer type search_on_u64_ff builds per segment (AllScorer / EmptyScorer / other, observed by downcast) = Lean FastRange.classify on the column's min / max / cardinality; the scorer's documents = brute force".into(),
+        "JSON path fed i64- and u64-supplied values: the real column type per segment (i64 / u64 / f64), written and merged = Lean JsonRange.writtenCol / mergedCol; merged type = write-time type of the union".into(),
         "exhaustive boolean trees (≤ 2 clauses quick, ≤ 3 thorough) × occur × msm over term/all/empty leaf kinds: all paths = answer = compile model".into(),
     ];
     std::panic::set_hook(Box::new(|info| {
@@ -2362,4 +2462,6 @@ pub fn run(ctx: &mut Ctx) {
     }
     let (fc, fq) = (ctx.budget(6, 80), ctx.budget(25, 40) as usize);
     check_fast_range_kinds(ctx, fc, fq);
+    let mc = ctx.budget(60, 1500);
+    check_json_mixed_column_types(ctx, mc);
 }
